@@ -221,6 +221,8 @@ Ret == /\ IsEv("ret")
                      warm == cached /\ Has(lat, lk) /\ Has(fet, <<o.scope, ev.ikid, lat[lk]>>)
                      f == fet[<<o.scope, ev.ikid, lat[lk]>>]
                  IN (IF ~chainOK THEN {"C02.ChainDurableAtReturn"} ELSE {})
+                    \* C03: the data key of this record was wrapped under the intermediate key of the partition the session was opened for
+                    \cup (IF "wantIkid" \in DOMAIN ev /\ ev.ikid # ev.wantIkid THEN {"C03.DataKeyUnderOwnPartitionIK"} ELSE {})
                     \cup (IF ~ev.fresh THEN {"C02.FreshProcessDecrypts"} ELSE {})
                     \cup (IF ev.drkLive > 0 THEN {"C09.DataKeyReleasedBeforeReturn"} ELSE {})
                     \cup (IF ~o.sfault /\ ExpiredAt(c, t) THEN {"C04.NoExpiredIK"} ELSE {})
